@@ -135,12 +135,19 @@ func startNode(t testing.TB) *node {
 	}
 }
 
+// nodePrepare (optional) populates the data directory before the node starts: a non-initial start state.
+var nodePrepare func(dataDir string)
+
 func startNodeOnce(t testing.TB) (*node, error) {
 	dir, err := os.MkdirTemp("", "c03node")
 	if err != nil {
 		t.Fatal(err)
 	}
 	n := &node{dir: dir, dataDir: filepath.Join(dir, "data"), internal: freePort(), public: freePort(), done: make(chan any, 1)}
+	if nodePrepare != nil {
+		_ = os.MkdirAll(n.dataDir, 0o700)
+		nodePrepare(n.dataDir)
+	}
 	grpcAddr, nats := freePort(), freePort()
 	cfg := filepath.Join(dir, "nuts.yaml")
 	_ = os.WriteFile(cfg, []byte(""), 0o600)
